@@ -10,7 +10,9 @@
     hash); the argument is a stream ([PyLib.py_stream]: content + hints that make reads
     short); the read loop is [PyLib.py_read_loop].  [gen_hashsum_equiv]: on full reads it is
     [DirHash.hashsum] (the fold over [chunks n]); [gen_hashsum_eq_oneshot]: for any block
-    size and any cutting of the stream by short reads it is the one-shot digest. *)
+    size and any cutting of the stream by short reads it is the one-shot digest.
+    Private helpers the translator extracted on its own (e.g. a [_new_hasher]) are registered
+    in the unfold database [pygen] by the generated file and are inlined first. *)
 From Coq Require Import List String Ascii NArith ZArith Bool Lia.
 From MV Require Import Util.DirHash Properties.C19.
 From MV Require Import Gen.PyLib Gen.PyLibProofs.
@@ -20,7 +22,7 @@ Local Open Scope string_scope.
 
 Theorem gen_qualified_equiv : forall (Bytes : Type) (hs : Bytes -> string -> string) data a,
   qualified_hashsum Bytes hs data (alg_name a) = qualified a (hs data (alg_name a)).
-Proof. intros. reflexivity. Qed.
+Proof. intros. unfold qualified_hashsum, qualified. cbv zeta. rewrite ?append_assoc'. reflexivity. Qed.
 Print Assumptions gen_qualified_equiv.
 
 Theorem gen_qualified_default : forall (Bytes : Type) (hs : Bytes -> string -> string) data,
@@ -118,7 +120,7 @@ Theorem gen_hashsum_equiv :
     = inr (DirHash.hashsum HS (new c) upd fin n bs).
 Proof.
   intros HS HC bsz upd fin new tbl alg c n bs Ht Hb Hn Hp.
-  unfold Gen_hashsums.hashsum. rewrite Ht. cbv zeta. unfold py_read_loop. cbn [st_rest].
+  unfold Gen_hashsums.hashsum. autounfold with pygen. rewrite Ht. cbv beta iota zeta. unfold py_read_loop. cbn [st_rest].
   destruct (py_read_loop_go _ _ _ _ _) as [h d] eqn:E.
   apply (f_equal fst) in E. rewrite (loop_full HS bsz upd Hb n Hp) in E by (auto; lia).
   cbn [fst] in E. subst h. reflexivity.
@@ -134,7 +136,7 @@ Theorem gen_hashsum_eq_oneshot :
     = inr (oneshot HS (new c) upd fin bs).
 Proof.
   intros HS HC bsz upd fin new tbl alg c bs hints Ha Hnil Ht Hb Hn.
-  unfold Gen_hashsums.hashsum. rewrite Ht. cbv zeta. unfold py_read_loop. cbn [st_rest].
+  unfold Gen_hashsums.hashsum. autounfold with pygen. rewrite Ht. cbv beta iota zeta. unfold py_read_loop. cbn [st_rest].
   destruct (py_read_loop_go _ _ _ _ _) as [h d] eqn:E.
   apply (f_equal fst) in E. cbn [fst] in E.
   destruct (loop_any_cut HS bsz upd Hb (S (List.length bs)) bs hints (new c)) as (cs & C1 & C2); [lia | exact Hn |].
@@ -148,5 +150,5 @@ Theorem gen_hashsum_unsupported :
   forall (HS HC : Type) bsz upd fin new (tbl : string -> option HC) d alg,
     tbl alg = None ->
     Gen_hashsums.hashsum HS HC bsz upd fin new tbl d alg = inl ("ValueError", "Unsupported hashsum: " ++ alg).
-Proof. intros. unfold Gen_hashsums.hashsum. rewrite H. reflexivity. Qed.
+Proof. intros. unfold Gen_hashsums.hashsum. autounfold with pygen. rewrite H. reflexivity. Qed.
 Print Assumptions gen_hashsum_unsupported.
